@@ -107,7 +107,12 @@ class JsonSchemaParser:
         readonly = schema.get('readOnly')
         writeonly = schema.get('writeOnly')
         aliases = schema.get('x-aliases')
-        kwargs.update(self.get_constraints(schema))
+        constraints = self.get_constraints(schema)
+        if constraints and type is self.default_type:
+            # no type to attach field constraints to: build the constrained type (its origin is inferred)
+            type = self.parse_type(schema, name=name, with_constraints=True)
+            constraints = {}
+        kwargs.update(constraints)
         kwargs.update(
             alias=alias,
             default=default,
